@@ -54,7 +54,7 @@ type c13Op struct {
 func (o c13Op) String() string {
 	switch o.Kind {
 	case 0:
-		return fmt.Sprintf("def(l%d,%c)", o.Local, "ABCDEF"[o.Variant])
+		return fmt.Sprintf("def(l%d,%c)", o.Local, "ABCDEFG"[o.Variant])
 	case 1:
 		return fmt.Sprintf("data(l%d)", o.Local)
 	}
@@ -75,6 +75,10 @@ func c13Def(v int, local byte) fitmodel.Def {
 		return fitmodel.FileIdDef(local, false)
 	case 5: // record with an empty field list (a data record then is just its header)
 		return fitmodel.Def{Local: local, Global: 20}
+	case 6: // exactly the field list of variant A, but big-endian
+		d := c13Def(0, local)
+		d.Big = true
+		return d
 	}
 	return fitmodel.Def{Local: local, Global: 0x0114, Fields: []fitmodel.FieldDef{{Num: 3, Size: 3, Base: fitmodel.Byte}, {Num: 7, Size: 2, Base: fitmodel.Uint16}}} // 0x0114: an unknown number whose low byte is record (20), with record's field numbers
 }
@@ -234,7 +238,7 @@ func c13Alphabet(locals []byte) []c13Op {
 		}
 	}
 	for _, l := range locals {
-		for _, v := range []int{0, 1, 2, 3, 5} {
+		for _, v := range []int{0, 1, 2, 3, 5, 6} {
 			a = append(a, c13Op{Kind: 0, Local: l, Variant: v})
 		}
 	}
@@ -253,7 +257,7 @@ func init() {
 	vx.Register(&vx.Prop{
 		ID:    "C13",
 		Level: "model_checking",
-		Rule: "slot machine model (16 local types, each undefined or holding one of 5 definition variants: record little-endian, record big-endian with other fields/sizes/order, device_info, an unknown message, record with an empty field list) explored two ways on the real decoder: (1) all words of length <=4 (quick) / <=5 (thorough) over {data(l), compressed data(l<=3), define(l,v)} for locals {0,1,3,4,15}, x 4 ways of writing the file_id record (local 0 / local 2, normal / compressed header); (2) breadth-first search over all reachable model slot states with a shortest witness each, every one-step extension followed by a probe of every defined slot (and one undefined slot), replayed on a fresh decoder; plus all 16 locals x variants at depth 2, plus long runs (one slot stays defined while other slots are redefined 20-3000 times with 2-255 fields). " +
+		Rule: "slot machine model (16 local types, each undefined or holding one of 6 definition variants: record little-endian, the same field list big-endian, record big-endian with other fields/sizes/order, device_info, an unknown message, record with an empty field list) explored two ways on the real decoder: (1) all words of length <=4 (quick) / <=5 (thorough) over {data(l), compressed data(l<=3), define(l,v)} for locals {0,1,3,4,15}, x 4 ways of writing the file_id record (local 0 / local 2, normal / compressed header); (2) breadth-first search over all reachable model slot states with a shortest witness each, every one-step extension followed by a probe of every defined slot (and one undefined slot), replayed on a fresh decoder; plus all 16 locals x variants at depth 2, plus long runs (one slot stays defined while other slots are redefined 20-3000 times with 2-255 fields). " +
 			"Oracle: each data record decodes under the latest definition of its slot (values via the C02 model), other slots unaffected, undefined slot => error with the earlier records kept. states/transitions = model states and extensions; traces = streams decoded",
 		Assumptions: []string{"streams carry no timestamp fields, so compressed headers do not alter content (timestamps are C12's subject)"},
 		Run:         runC13,
@@ -402,7 +406,7 @@ func runC13(w *vx.W) {
 	// (3) all 16 locals at depth 2: define(l,v) data(l') for all l,l'
 	var k int64
 	for l := 0; l < 16; l++ {
-		for _, v := range []int{0, 1, 2, 3, 5} {
+		for _, v := range []int{0, 1, 2, 3, 5, 6} {
 			for l2 := 0; l2 < 16; l2++ {
 				for kind := 1; kind <= 2; kind++ {
 					if kind == 2 && l2 > 3 {
@@ -412,7 +416,7 @@ func runC13(w *vx.W) {
 					if !w.Mine(k) {
 						continue
 					}
-					word := []c13Op{{Kind: 0, Local: byte(l), Variant: v}, {Kind: kind, Local: byte(l2)}, {Kind: 0, Local: byte(l2), Variant: []int{1, 2, 3, 5, 5, 0}[v]}, {Kind: kind, Local: byte(l2)}, {Kind: 1, Local: byte(l)}}
+					word := []c13Op{{Kind: 0, Local: byte(l), Variant: v}, {Kind: kind, Local: byte(l2)}, {Kind: 0, Local: byte(l2), Variant: []int{1, 2, 3, 5, 5, 6, 0}[v]}, {Kind: kind, Local: byte(l2)}, {Kind: 1, Local: byte(l)}}
 					stream, msg := c13Run(0, word)
 					w.Eval(1)
 					w.Trace(1)
@@ -422,6 +426,44 @@ func runC13(w *vx.W) {
 						report(0, word, stream, msg)
 					}
 				}
+			}
+		}
+	}
+	// (5) chained files: definitions do not carry over from one member to the next
+	for l := 0; l < 16; l++ {
+		if !w.Mine(int64(l)) {
+			continue
+		}
+		for kind := 1; kind <= 2; kind++ {
+			if kind == 2 && l > 3 {
+				continue
+			}
+			d := c13Def(0, byte(l))
+			first := fitmodel.File(fitmodel.DefaultHeader, fitmodel.FileIdDef(5, false).Bytes(), fitmodel.Data(5, []byte{4}), d.Bytes(), fitmodel.Data(byte(l), c13Payload(d, 1)))
+			if l == 5 {
+				first = fitmodel.File(fitmodel.DefaultHeader, fitmodel.FileIdDef(6, false).Bytes(), fitmodel.Data(6, []byte{4}), d.Bytes(), fitmodel.Data(5, c13Payload(d, 1)))
+			}
+			hdr := []byte{byte(l)}
+			if kind == 2 {
+				hdr = []byte{0x80 | byte(l)<<5}
+			}
+			fl := byte(7)
+			if l == 7 {
+				fl = 8
+			}
+			second := fitmodel.File(hdr12(), fitmodel.FileIdDef(fl, false).Bytes(), fitmodel.Data(fl, []byte{4}), append(hdr, c13Payload(d, 2)...))
+			res := safeDecodeChained(bytes.NewReader(fitmodel.Concat(first, second)))
+			w.Eval(1)
+			w.Trace(1)
+			w.Fam("chained-slot-isolation", 1)
+			desc := fmt.Sprintf("chain: member 1 defines local type %d, member 2 sends a data record (kind %d) for it without defining it", l, kind)
+			rep := c13Replay{Word: desc, Hex: vx.Hex(fitmodel.Concat(first, second))}
+			if res.Panic != "" {
+				w.Violation("chained-slots", desc+": panic "+res.Panic, rep)
+			} else if res.Err == nil {
+				w.Violation("chained-slots", desc+": DecodeChained accepts it (the definition leaked from the first member)", rep)
+			} else if len(res.Files) == 2 && len(messagesOf(res.Files[1], 20)) != 0 {
+				w.Violation("chained-slots", desc+": the second member holds a record decoded with the first member's definition", rep)
 			}
 		}
 	}
